@@ -77,7 +77,7 @@ inductive Desc where
   | range (a b s : Rat)
   | fac (n : Nat) (base f init : Rat)
   | values (vs : List Rat)
-  deriving Repr
+  deriving Repr, DecidableEq
 
 def keywordKind (name : List Char) : Option Nat :=
   let n := String.ofList (name.map toLower)
